@@ -165,6 +165,11 @@ V: List[Tuple[str, str, List[str], str, str, str, List[str]]] = [
     ("lint-polarity", "break", ["C20"], PC + "linter.py", "        definition_name = name or definition.name\n        expect = pascal_case(definition_name)\n        if expect != definition_name:\n            return MessageNameNotPascal", "        definition_name = name or definition.name\n        expect = pascal_case(definition_name)\n        if expect == definition_name:\n            return MessageNameNotPascal", ["C7"]),
     ("lint-field-pascal", "break", ["C20"], PC + "linter.py", "        expect = snake_case(definition_name)\n        if expect != definition_name:\n            return MessageFieldNameNotSnake", "        expect = pascal_case(definition_name)\n        if expect != definition_name:\n            return MessageFieldNameNotSnake", ["C7"]),
     ("comment-swallows-newline", "break", ["C20"], PC + "lexer.py", 'r"\\/\\/[^\\n]*"', 'r"\\/\\/[^\\n]*\\n?"', ["B2"]),
+    ("col-first-line-clamp", "break", ["C20"], PC + "parser.py", "        return lexpos - last_newline\n", "        return lexpos - max(last_newline, 0)\n", ["B2"]),
+    ("col-zero-based", "break", ["C20"], PC + "parser.py", "        return lexpos - last_newline\n", "        return lexpos - last_newline - 1\n", ["B2"]),
+    ("col-unbounded-search", "break", ["C20"], PC + "parser.py", "        last_newline = p.lexer.lexdata.rfind(\"\\n\", 0, lexpos)\n", "        last_newline = p.lexer.lexdata.rfind(\"\\n\")\n", ["B2"]),
+    ("benign-col-slice-search", "benign", ["C20"], PC + "parser.py", "        last_newline = p.lexer.lexdata.rfind(\"\\n\", 0, lexpos)\n", "        last_newline = p.lexer.lexdata[:lexpos].rfind(\"\\n\")\n", []),
+    ("benign-col-explicit-first-line", "benign", ["C20"], PC + "parser.py", "        return lexpos - last_newline\n", "        if last_newline < 0:\n            return lexpos + 1\n        return lexpos - last_newline\n", []),
     ("enum-field-line", "break", ["C20"], PC + "parser.py", "            token=p[1],\n            token_col_start=self._get_col(p, 1),\n            lineno=p.lineno(1),\n            indent=self.current_indent(p),\n            filepath=self.current_filepath(),\n            scope_stack", "            token=p[1],\n            token_col_start=self._get_col(p, 3),\n            lineno=p.lineno(1),\n            indent=self.current_indent(p),\n            filepath=self.current_filepath(),\n            scope_stack", ["B2"]),
     ("type-tracking-dropped", "break", ["C20"], PC + "parser.py", "    def p_dotted_identifier(self, p: P) -> None:\n        self.copy_p_tracking(p)  # from 1 => 0\n", "    def p_dotted_identifier(self, p: P) -> None:\n", ["B2"]),
     ("check-exit", "break", ["C20"], PC + "_main.py", "        if lint_warnings > 0:\n            fatal()\n        return", "        if lint_warnings > 1:\n            fatal()\n        return", ["A5"]),
